@@ -48,6 +48,7 @@ structure Running where
   expected : List Item
   roles : List (Nat × Nat)       -- observed thread int ↦ role
   cut : Option Nat
+  lf : Option Nat := none       -- lookups from this index on fail (results deleted by a concurrent teardown: D11)
 deriving Repr, Inhabited
 
 structure Flags where
@@ -170,30 +171,42 @@ def resOfClass : ResClass → Sched.Res
 
 def listPrefix (pre l : List Item) : Bool := (l.take pre.length).map normItem == pre.map normItem
 
-/-- try to explain a mismatch by the keyboard interrupt: find the first API act index from which acts
-    raise, such that the recomputed output has the consumed items as prefix and the observed item next -/
-def findCut (c : Ctx) (r : Running) (obs : Item) (maxActs : Nat) : Option (Option Nat × (List Td × Insts) × TaskOut) :=
-  let consumed := r.consumed.reverse
-  let tryOne (ki : List Td × Insts) (cut : Option Nat) : Option (Option Nat × (List Td × Insts) × TaskOut) :=
-    let out := runTask c.P ki.2 r.worker r.tid r.run r.reason ki.1 cut
-    if listPrefix (consumed ++ [obs]) out.items then some (cut, ki, out) else none
-  let kis := (r.kept, r.instsAtStart) :: r.altKept
-  let cuts : List (Option Nat) := match r.cut with
+/-- the explanations the interrupt path allows for a deviation, in increasing order of exoticness:
+    another value of `teardown_funcs` / instance state, an API act raising AbortTest from index `cut` on,
+    fixture lookups asserting from index `lf` on (results deleted by a teardown running under the task) -/
+def candidates (r : Running) (maxActs : Nat) : List (Option Nat × (List Td × Insts) × Option Nat) :=
+  let prim := (r.kept, r.instsAtStart)
+  let kis := prim :: r.altKept
+  let cutsAll : List (Option Nat) := match r.cut with
     | some k => [some k]
-    | none => none :: (List.range (maxActs + 1)).map some
-  cuts.findSome? (fun cut => kis.findSome? (fun ki => tryOne ki cut))
+    | none => (List.range (maxActs + 1)).map some
+  let lfs : List (Option Nat) := match r.lf with
+    | some j => [some j]
+    | none => (List.range 12).map some
+  kis.map (fun ki => (r.cut, ki, r.lf)) ++
+  (if r.cut.isNone then cutsAll.map (fun c => (c, prim, r.lf)) else []) ++
+  (if r.lf.isNone then lfs.map (fun j => (r.cut, prim, j)) else []) ++
+  (if r.cut.isNone then (cutsAll.flatMap (fun c => r.altKept.map (fun ki => (c, ki, r.lf)))) else []) ++
+  (if r.cut.isNone && r.lf.isNone then
+     ((List.range 25).flatMap (fun c => (List.range 8).map (fun j => (some c, prim, some j)))) else [])
 
-/-- at `finish`: the task ended although the model expected more — explain it by the interrupt (same search,
-    the recomputed output must be exactly what was consumed) -/
-def findExact (c : Ctx) (r : Running) (maxActs : Nat) : Option (Option Nat × (List Td × Insts) × TaskOut) :=
+/-- try to explain a mismatch by the keyboard interrupt: the recomputed output must have the consumed items
+    as prefix and the observed item next -/
+def findCut (c : Ctx) (r : Running) (obs : Item) (maxActs : Nat) :
+    Option (Option Nat × (List Td × Insts) × Option Nat × TaskOut) :=
   let consumed := r.consumed.reverse
-  let kis := (r.kept, r.instsAtStart) :: r.altKept
-  let cuts : List (Option Nat) := match r.cut with
-    | some k => [some k]
-    | none => none :: (List.range (maxActs + 1)).map some
-  cuts.findSome? (fun cut => kis.findSome? (fun ki =>
-    let out := runTask c.P ki.2 r.worker r.tid r.run r.reason ki.1 cut
-    if out.items.map normItem == consumed.map normItem then some (cut, ki, out) else none))
+  (candidates r maxActs).findSome? (fun (cut, ki, lf) =>
+    let out := runTask c.P ki.2 r.worker r.tid r.run r.reason ki.1 cut lf
+    if listPrefix (consumed ++ [obs]) out.items then some (cut, ki, lf, out) else none)
+
+/-- at `finish`: the task ended although the model expected more — same search, the recomputed output must be
+    exactly what was consumed -/
+def findExact (c : Ctx) (r : Running) (maxActs : Nat) :
+    Option (Option Nat × (List Td × Insts) × Option Nat × TaskOut) :=
+  let consumed := r.consumed.reverse
+  (candidates r maxActs).findSome? (fun (cut, ki, lf) =>
+    let out := runTask c.P ki.2 r.worker r.tid r.run r.reason ki.1 cut lf
+    if out.items.map normItem == consumed.map normItem then some (cut, ki, lf, out) else none)
 
 inductive Verdict
   | ok (g : G)
@@ -223,8 +236,8 @@ def acceptItem (c : Ctx) (g : G) (th : Nat) (mk : Nat → Item) : Verdict :=
       if itemMatches e obs then advance r
       else if g.defF.interrupted then
         match findCut c r obs 80 with
-        | some (k, kept, out) =>
-          let r' := { r with cut := k, kept := kept.1, instsAtStart := kept.2, out := out,
+        | some (k, kept, lf, out) =>
+          let r' := { r with cut := k, lf := lf, kept := kept.1, instsAtStart := kept.2, out := out,
                              expected := out.items.drop r.consumed.length }
           advance r'
         | none => advance r
@@ -232,8 +245,8 @@ def acceptItem (c : Ctx) (g : G) (th : Nat) (mk : Nat → Item) : Verdict :=
     | [] =>
       if g.defF.interrupted then
         match findCut c r obs 80 with
-        | some (k, kept, out) =>
-          let r' := { r with cut := k, kept := kept.1, instsAtStart := kept.2, out := out,
+        | some (k, kept, lf, out) =>
+          let r' := { r with cut := k, lf := lf, kept := kept.1, instsAtStart := kept.2, out := out,
                              expected := out.items.drop r.consumed.length }
           advance r'
         | none => advance r
@@ -344,7 +357,7 @@ def step (c : Ctx) (g : G) : Rec → Verdict
       let ru : Running :=
         if !ru0.expected.isEmpty && g.defF.interrupted then
           match findExact c ru0 80 with
-          | some (k, ki, out) => { ru0 with cut := k, kept := ki.1, instsAtStart := ki.2, out := out, expected := [] }
+          | some (k, ki, lf, out) => { ru0 with cut := k, lf := lf, kept := ki.1, instsAtStart := ki.2, out := out, expected := [] }
           | none =>
             -- D11: after an interrupt the teardown tasks run while tests are in flight; a fixture lookup of an
             -- in-flight task then finds the result deleted (AssertionError outside any guard) and the task dies
